@@ -69,3 +69,14 @@ void st_fmt_s(void *e, void *msg, void *what) { }
 void st_fmt_ssc(void *e, void *msg, void *what, void *msg2, void *what2) { }
 void st_fmt_u(void *e, void *msg, uint32_t what) { }
 void st_fmt_uu(void *e, void *msg, uint32_t what, void *msg2, uint32_t what2) { }
+/* base-class builders / Session::send: never reached in this world (VSession overrides them) */
+#define BASE_TRAP(what) __CPROVER_assert(0, "base-class " what " reached although VSession overrides it"); __CPROVER_assume(0)
+void *st_base_pus(void *s, uint32_t a, void *b) { BASE_TRAP("generate_logon"); return 0; }
+void *st_base_pp(void *s, void *a) { BASE_TRAP("generate_logout/heartbeat/test_request"); return 0; }
+void *st_base_puu(void *s, uint32_t a, uint32_t b) { BASE_TRAP("generate_resend_request"); return 0; }
+void *st_base_pub(void *s, uint32_t a, uint8_t b) { BASE_TRAP("generate_sequence_reset"); return 0; }
+void *st_base_pupp(void *s, uint32_t a, void *b, void *c) { BASE_TRAP("generate_reject"); return 0; }
+void *st_base_pupup(void *s, uint32_t a, void *b, uint32_t c, void *d) { BASE_TRAP("generate_business_reject"); return 0; }
+uint8_t st_base_send(void *s, void *m, uint8_t d, uint32_t c, uint8_t n) { BASE_TRAP("Session::send(Message*)"); return 0; }
+uint8_t st_base_send2(void *s, void *m, uint32_t c, uint8_t n) { BASE_TRAP("Session::send(Message&)"); return 0; }
+uint8_t st_base_sp(void *s, void *m) { BASE_TRAP("Session::send_process"); return 0; }
